@@ -1,7 +1,6 @@
 package np
 
 import (
-	"go/types"
 	"strings"
 
 	"golang.org/x/tools/go/ssa"
@@ -71,16 +70,16 @@ func propC17(c *Ctx) {
 	y4 := c.Rule("Y4", "K11/K12", "channel callback never blocks; capacity 1", 2)
 	if fn := c.Fn(y4, "(*waiter.channelCallback).Callback"); fn != nil {
 		n := 0
-		Instrs(fn, func(in ssa.Instruction) {
-			switch x := in.(type) {
-			case *ssa.Select:
+		for _, st := range Sites(fn) { // Sites: also through a helper extracted later (inline.go)
+			switch st.Kind {
+			case "select":
 				n++
-				okSend := len(x.States) == 1 && x.States[0].Dir == types.SendOnly
-				c.Check(!x.Blocking && okSend, y4, FuncName(fn)+"/nonblocking-send", c.pos(in), "select { case ch <- token: default: }", "the callback's channel operation can block or is not a send")
-			case *ssa.Send:
-				c.Bad(y4, FuncName(fn)+"/plain-send", c.pos(in), "plain channel send blocks the notifier when the token is already there")
+				okSend := len(st.Args) == 2 && st.Args[0] == "blocking=false" && strings.HasPrefix(st.Args[1], "send ")
+				c.Check(okSend, y4, FuncName(fn)+"/nonblocking-send", c.pos(st.Instr), "select { case ch <- token: default: }", "the callback's channel operation can block or is not a send")
+			case "send":
+				c.Bad(y4, FuncName(fn)+"/plain-send", c.pos(st.Instr), "plain channel send blocks the notifier when the token is already there")
 			}
-		})
+		}
 		c.Check(n == 1, y4, FuncName(fn)+"/one-select", c.P.Pos(fn.Pos()), "one non-blocking select", "callback no longer performs exactly one select")
 	}
 	if fn := c.Fn(y4, "waiter.NewChannelEntry"); fn != nil {
